@@ -503,18 +503,117 @@ theorem allotSources_ok {R : List Resource} {V : List BVal} {env : VEnv} (cx : C
                   · simp only [exec_append, hex1, exec_cons, step_apush hVa, push_upd, hbump, hex2, hex3]
                     simp [fundVals]
 
-/-- what the code of a statement of the fragment does, in `Spec`'s words -/
-theorem stmt_ok {R : List Resource} {V : List BVal} {env : VEnv} (cx : Ctx R V env) (hp : VPos V) {st st' : CState} {s : Stmt} {c : Code}
+/-- the machine mirrors `Spec`'s running state, metadata values and printed values being related by `Q` -/
+structure RelQ (Q : BVal → Val → Prop) (A : List Acct) (E : List (Acct × Asset)) (m : Machine) (F : Full) : Prop where
+  stack : m.stack = []
+  accts : m.balances.accts = A
+  bal : m.balances.bal = F.st.bal
+  postings : m.postings = F.st.postings
+  txMeta : List.Forall₂ (fun (x : String × BVal) (y : String × Val) => x.1 = y.1 ∧ Q x.2 y.2) m.txMeta F.txMeta
+  acctMeta : List.Forall₂ (fun (x : Acct × String × BVal) (y : Acct × String × Val) => x.1 = y.1 ∧ x.2.1 = y.2.1 ∧ Q x.2.2 y.2.2)
+    m.acctMeta F.acctMeta
+  prints : List.Forall₂ Q m.prints F.prints
+  ok : BalOK A E F.st.bal
+
+theorem forall2_filter {α β} {R : α → β → Prop} {p : α → Bool} {q : β → Bool} {l : List α} {l' : List β}
+    (h : List.Forall₂ R l l') (hpq : ∀ x y, R x y → p x = q y) : List.Forall₂ R (l.filter p) (l'.filter q) := by
+  induction h with
+  | nil => exact List.Forall₂.nil
+  | @cons x y l l' hxy _ ih =>
+    rw [List.filter_cons, List.filter_cons, hpq x y hxy]
+    split
+    · exact List.Forall₂.cons hxy ih
+    · exact ih
+
+theorem setKey_forall2 {Q : BVal → Val → Prop} {l : List (String × BVal)} {l' : List (String × Val)}
+    (h : List.Forall₂ (fun (x : String × BVal) (y : String × Val) => x.1 = y.1 ∧ Q x.2 y.2) l l') (k : String) {v : BVal} {v' : Val}
+    (hv : Q v v') :
+    List.Forall₂ (fun (x : String × BVal) (y : String × Val) => x.1 = y.1 ∧ Q x.2 y.2) (setKey l k v) (setKey l' k v') := by
+  unfold setKey
+  refine forall2_append (forall2_filter h ?_) (List.Forall₂.cons ⟨rfl, hv⟩ List.Forall₂.nil)
+  intro x y hxy
+  rw [hxy.1]
+
+theorem acctMeta_forall2 {Q : BVal → Val → Prop} {l : List (Acct × String × BVal)} {l' : List (Acct × String × Val)}
+    (h : List.Forall₂ (fun (x : Acct × String × BVal) (y : Acct × String × Val) => x.1 = y.1 ∧ x.2.1 = y.2.1 ∧ Q x.2.2 y.2.2) l l')
+    (a : Acct) (k : String) {v : BVal} {v' : Val} (hv : Q v v') :
+    List.Forall₂ (fun (x : Acct × String × BVal) (y : Acct × String × Val) => x.1 = y.1 ∧ x.2.1 = y.2.1 ∧ Q x.2.2 y.2.2)
+      (l.filter (fun x => ¬ (x.1 = a ∧ x.2.1 = k)) ++ [(a, k, v)]) (l'.filter (fun m => ¬ (m.1 = a ∧ m.2.1 = k)) ++ [(a, k, v')]) := by
+  refine forall2_append (forall2_filter h ?_) (List.Forall₂.cons ⟨rfl, rfl, hv⟩ List.Forall₂.nil)
+  intro x y hxy
+  rw [hxy.1, hxy.2.1]
+
+/-- `Q` = the VM holds exactly the image of `Spec`'s value -/
+def ExactQ (w : BVal) (v : Val) : Prop := w = BVal.ofVal v
+
+theorem forall2_exact_tx {l : List (String × BVal)} {l' : List (String × Val)} :
+    List.Forall₂ (fun (x : String × BVal) (y : String × Val) => x.1 = y.1 ∧ ExactQ x.2 y.2) l l' ↔
+      l = l'.map (fun kv => (kv.1, BVal.ofVal kv.2)) := by
+  constructor
+  · intro h
+    induction h with
+    | nil => rfl
+    | @cons x y l l' hxy _ ih =>
+      obtain ⟨x1, x2⟩ := x
+      simp only [ExactQ] at hxy
+      obtain ⟨rfl, rfl⟩ := hxy
+      rw [ih]; rfl
+  · rintro rfl
+    induction l' with
+    | nil => exact List.Forall₂.nil
+    | cons y l' ih => exact List.Forall₂.cons ⟨rfl, rfl⟩ ih
+
+theorem forall2_exact_acct {l : List (Acct × String × BVal)} {l' : List (Acct × String × Val)} :
+    List.Forall₂ (fun (x : Acct × String × BVal) (y : Acct × String × Val) => x.1 = y.1 ∧ x.2.1 = y.2.1 ∧ ExactQ x.2.2 y.2.2) l l' ↔
+      l = l'.map (fun x => (x.1, x.2.1, BVal.ofVal x.2.2)) := by
+  constructor
+  · intro h
+    induction h with
+    | nil => rfl
+    | @cons x y l l' hxy _ ih =>
+      obtain ⟨x1, x2, x3⟩ := x
+      simp only [ExactQ] at hxy
+      obtain ⟨rfl, rfl, rfl⟩ := hxy
+      rw [ih]; rfl
+  · rintro rfl
+    induction l' with
+    | nil => exact List.Forall₂.nil
+    | cons y l' ih => exact List.Forall₂.cons ⟨rfl, rfl, rfl⟩ ih
+
+theorem forall2_exact_prints {l : List BVal} {l' : List Val} : List.Forall₂ ExactQ l l' ↔ l = l'.map BVal.ofVal := by
+  constructor
+  · intro h
+    induction h with
+    | nil => rfl
+    | @cons x y l l' hxy _ ih => simp only [ExactQ] at hxy; subst hxy; rw [ih]; rfl
+  · rintro rfl
+    induction l' with
+    | nil => exact List.Forall₂.nil
+    | cons y l' ih => exact List.Forall₂.cons rfl ih
+
+theorem Rel.toQ {A : List Acct} {m : Machine} {F : Full} (h : Rel A E m F) : RelQ ExactQ A E m F :=
+  ⟨h.stack, h.accts, h.bal, h.postings, forall2_exact_tx.mpr h.txMeta, forall2_exact_acct.mpr h.acctMeta,
+    forall2_exact_prints.mpr h.prints, h.ok⟩
+
+theorem RelQ.toRel {A : List Acct} {m : Machine} {F : Full} (h : RelQ ExactQ A E m F) : Rel A E m F :=
+  ⟨h.stack, h.accts, h.bal, h.postings, forall2_exact_tx.mp h.txMeta, forall2_exact_acct.mp h.acctMeta,
+    forall2_exact_prints.mp h.prints, h.ok⟩
+
+/-- what the code of a statement of the fragment does, in `Spec`'s words; metadata and printed values are related by
+any `Q` that relates `ofVal v` to `v` (equality for `compile_correct_partial`, equality of the rendered strings
+for the end-to-end statement) -/
+theorem stmt_okQ {Q : BVal → Val → Prop} (hQ : ∀ v, Q (BVal.ofVal v) v)
+    {R : List Resource} {V : List BVal} {env : VEnv} (cx : Ctx R V env) (hp : VPos V) {st st' : CState} {s : Stmt} {c : Code}
     (hv : visitStmt st s = .ok (c, st')) (hsub : Sub st' R) (hidx : VarIdxOK st) (hf : s.frag = true)
-    {A : List Acct} (hE : EntOK V st'.needed A E) (m : Machine) (F : Full) (hrel : Rel A E m F) :
+    {A : List Acct} (hE : EntOK V st'.needed A E) (m : Machine) (F : Full) (hrel : RelQ Q A E m F) :
     match evalStmt env s F with
     | .error er => exec V c m = .error er
-    | .ok F' => ∃ m', exec V c m = .ok m' ∧ Rel A E m' F' := by
+    | .ok F' => ∃ m', exec V c m = .ok m' ∧ RelQ Q A E m' F' := by
   have hf := Stmt.frag0_of_frag hv hf
   obtain ⟨stk, ⟨accts, keys, bal⟩, ps, tm, am, pr⟩ := m
   obtain ⟨h1, h2, h3, h4, h5, h6, h7, hok⟩ := hrel
   simp only at h1 h2 h3 h4 h5 h6 h7
-  subst h1 h2 h3 h4 h5 h6 h7
+  subst h1 h2 h3 h4
   cases s with
   | fail =>
     simp only [visitStmt, Except.ok.injEq, Prod.mk.injEq] at hv
@@ -535,7 +634,7 @@ theorem stmt_ok {R : List Resource} {V : List BVal} {env : VEnv} (cx : Ctx R V e
       | ok x =>
         rw [he] at h
         refine ⟨_, by simp only [exec_append, h.2, exec, step, popValue, Machine.push]; rfl, ?_⟩
-        exact ⟨rfl, rfl, rfl, rfl, rfl, rfl, by simp, hok⟩
+        exact ⟨rfl, rfl, rfl, rfl, h5, h6, forall2_append h7 (List.Forall₂.cons (hQ x) List.Forall₂.nil), hok⟩
   | setTxMeta key v =>
     simp only [Stmt.frag0] at hf
     simp only [visitStmt] at hv
@@ -558,7 +657,7 @@ theorem stmt_ok {R : List Resource} {V : List BVal} {env : VEnv} (cx : Ctx R V e
         | ok x =>
           rw [he] at h
           refine ⟨_, by simp only [exec_append, h.2, exec, hVk, step, popStr, popValue, Machine.push]; rfl, ?_⟩
-          exact ⟨rfl, rfl, rfl, rfl, by simp only; rw [setKey_map], rfl, rfl, hok⟩
+          exact ⟨rfl, rfl, rfl, rfl, setKey_forall2 h5 key (hQ x), h6, h7, hok⟩
   | setAccountMeta acc key v =>
     simp only [Stmt.frag0, Bool.and_eq_true] at hf
     simp only [visitStmt] at hv
@@ -588,8 +687,7 @@ theorem stmt_ok {R : List Resource} {V : List BVal} {env : VEnv} (cx : Ctx R V e
             rw [he] at h
             simp only [hx]
             refine ⟨_, by simp only [exec_append, h.2, exec, hVk, hVa, step, popStr, popAcct, popValue, Machine.push]; rfl, ?_⟩
-            refine ⟨rfl, rfl, rfl, rfl, rfl, ?_, rfl, hok⟩
-            simp [List.filter_map, Function.comp_def]
+            exact ⟨rfl, rfl, rfl, rfl, h5, acctMeta_forall2 h6 x key (hQ y), h7, hok⟩
   | saveMon e acc =>
     simp only [Stmt.frag0, Bool.and_eq_true] at hf
     simp only [visitStmt] at hv
@@ -628,7 +726,7 @@ theorem stmt_ok {R : List Resource} {V : List BVal} {env : VEnv} (cx : Ctx R V e
               simp only
               refine ⟨_, by simp only [exec_append, hcode, exec, hVa, step, popAcct, popValue, Machine.push, hneg, if_false,
                 Balances.hasAcct, hent.1, Bool.not_true, Bool.false_eq_true, hg, Option.getD_some]; rfl, ?_⟩
-              exact ⟨rfl, rfl, rfl, rfl, rfl, rfl, rfl, hok.upd hent.1 _ _⟩
+              exact ⟨rfl, rfl, rfl, rfl, h5, h6, h7, hok.upd hent.1 _ _⟩
   | saveAll ae acc =>
     simp only [Stmt.frag0, Bool.and_eq_true] at hf
     simp only [visitStmt] at hv
@@ -656,11 +754,11 @@ theorem stmt_ok {R : List Resource} {V : List BVal} {env : VEnv} (cx : Ctx R V e
           · refine ⟨_, by simp only [exec, hVs, hVa, step, popAcct, popValue, Machine.push,
               Balances.hasAcct, hent.1, Bool.not_true, Bool.false_eq_true, if_false, hg, hpos, if_true]; rfl, ?_⟩
             simp only [hpos, if_true]
-            exact ⟨rfl, rfl, rfl, rfl, rfl, rfl, rfl, hok.upd hent.1 _ _⟩
+            exact ⟨rfl, rfl, rfl, rfl, h5, h6, h7, hok.upd hent.1 _ _⟩
           · refine ⟨_, by simp only [exec, hVs, hVa, step, popAcct, popValue, Machine.push,
               Balances.hasAcct, hent.1, Bool.not_true, Bool.false_eq_true, if_false, hg, hpos]; rfl, ?_⟩
             simp only [hpos, if_false]
-            exact ⟨rfl, rfl, rfl, rfl, rfl, rfl, rfl, hok⟩
+            exact ⟨rfl, rfl, rfl, rfl, h5, h6, h7, hok⟩
   | send amt src d =>
     simp only [visitStmt] at hv
     split at hv
@@ -719,7 +817,7 @@ theorem stmt_ok {R : List Resource} {V : List BVal} {env : VEnv} (cx : Ctx R V e
                           (by rw [List.length_map]; exact hflen)
                         have hcf := emitSeq_exec cx hfin hsubD
                         have hidxT : VarIdxOK stD := hes.varIdxOK hidx
-                        obtain ⟨m0, hm0⟩ : ∃ m0 : Machine, m0 = (⟨[], ⟨accts, keys, F.st.bal⟩, F.st.postings, F.txMeta.map (fun kv => (kv.1, BVal.ofVal kv.2)), F.acctMeta.map (fun x => (x.1, x.2.1, BVal.ofVal x.2.2)), F.prints.map BVal.ofVal⟩ : Machine) := ⟨_, rfl⟩
+                        obtain ⟨m0, hm0⟩ : ∃ m0 : Machine, m0 = (⟨[], ⟨accts, keys, F.st.bal⟩, F.st.postings, tm, am, pr⟩ : Machine) := ⟨_, rfl⟩
                         have hm0u : m0.upd [] keys F.st.bal = m0 := by subst hm0; rfl
                         have hm0a : m0.balances.accts = accts := by subst hm0; rfl
                         have hm0p : m0.postings = F.st.postings := by subst hm0; rfl
@@ -819,7 +917,7 @@ theorem stmt_ok {R : List Resource} {V : List BVal} {env : VEnv} (cx : Ctx R V e
                                   obtain ⟨hok3, ks3, hex3⟩ := hD
                                   refine ⟨m0.upd3 [] ks3 st3.bal st3.postings, by simp only [exec_append, hex1, hcf, runEmits, push_upd, hnn, hasm, hex3], ?_⟩
                                   subst hm0
-                                  exact ⟨rfl, rfl, rfl, rfl, rfl, rfl, rfl, by rw [hm0a] at hok3; exact hok3⟩
+                                  exact ⟨rfl, rfl, rfl, rfl, h5, h6, h7, by rw [hm0a] at hok3; exact hok3⟩
           | src sc =>
             cases amt with
             | mon e =>
@@ -857,17 +955,17 @@ theorem stmt_ok {R : List Resource} {V : List BVal} {env : VEnv} (cx : Ctx R V e
                       have hX := (expr_ok cx heo hsubE hidxN hfe).1
                       have hidxT : VarIdxOK stT := hes.varIdxOK hidx
                       simp only [evalStmt, evalSend, hla]
-                      have hs1 := hS (⟨[], ⟨accts, keys, F.st.bal⟩, F.st.postings, F.txMeta.map (fun kv => (kv.1, BVal.ofVal kv.2)), F.acctMeta.map (fun x => (x.1, x.2.1, BVal.ofVal x.2.2)), F.prints.map BVal.ofVal⟩ : Machine) [] keys F.st.bal hok
+                      have hs1 := hS (⟨[], ⟨accts, keys, F.st.bal⟩, F.st.postings, tm, am, pr⟩ : Machine) [] keys F.st.bal hok
                       cases hsrcv : evalSource env a0 sc F.st.bal with
                       | error er =>
                         rw [hsrcv] at hs1
-                        have : exec V so.code (⟨[], ⟨accts, keys, F.st.bal⟩, F.st.postings, F.txMeta.map (fun kv => (kv.1, BVal.ofVal kv.2)), F.acctMeta.map (fun x => (x.1, x.2.1, BVal.ofVal x.2.2)), F.prints.map BVal.ofVal⟩ : Machine) = .error er := hs1
+                        have : exec V so.code (⟨[], ⟨accts, keys, F.st.bal⟩, F.st.postings, tm, am, pr⟩ : Machine) = .error er := hs1
                         simp only [exec_append, this]
                       | ok r =>
                         obtain ⟨f, fb, b1⟩ := r
                         rw [hsrcv] at hs1
                         obtain ⟨hfb, hok1, hparts, ks1, hex1⟩ := hs1
-                        have hex1' : exec V so.code (⟨[], ⟨accts, keys, F.st.bal⟩, F.st.postings, F.txMeta.map (fun kv => (kv.1, BVal.ofVal kv.2)), F.acctMeta.map (fun x => (x.1, x.2.1, BVal.ofVal x.2.2)), F.prints.map BVal.ofVal⟩ : Machine) = _ := hex1
+                        have hex1' : exec V so.code (⟨[], ⟨accts, keys, F.st.bal⟩, F.st.postings, tm, am, pr⟩ : Machine) = _ := hex1
                         simp only
                         cases hem : evalMon env e with
                         | error er =>
@@ -893,7 +991,7 @@ theorem stmt_ok {R : List Resource} {V : List BVal} {env : VEnv} (cx : Ctx R V e
                               simp only [hee, Except.ok.injEq, Prod.mk.injEq] at hem
                               obtain ⟨rfl, rfl⟩ := hem; rfl
                           rw [hee] at hX
-                          have hT := takeFromSource_ok (E := E) cx hct hsubT (⟨[], ⟨accts, keys, F.st.bal⟩, F.st.postings, F.txMeta.map (fun kv => (kv.1, BVal.ofVal kv.2)), F.acctMeta.map (fun x => (x.1, x.2.1, BVal.ofVal x.2.2)), F.prints.map BVal.ofVal⟩ : Machine)
+                          have hT := takeFromSource_ok (E := E) cx hct hsubT (⟨[], ⟨accts, keys, F.st.bal⟩, F.st.postings, tm, am, pr⟩ : Machine)
                             [] ks1 b1 hok1 f hparts fb hfb ma mn
                           simp only
                           cases htk : takeFromSource fb f ma mn b1 with
@@ -904,7 +1002,7 @@ theorem stmt_ok {R : List Resource} {V : List BVal} {env : VEnv} (cx : Ctx R V e
                             obtain ⟨taken, b2⟩ := r
                             rw [htk] at hT
                             obtain ⟨hok2, hparts2, ks2, hex2⟩ := hT
-                            have hD := destination_ok (E := E) cx hp hdst hsub2 hidxT hfd (⟨[], ⟨accts, keys, F.st.bal⟩, F.st.postings, F.txMeta.map (fun kv => (kv.1, BVal.ofVal kv.2)), F.acctMeta.map (fun x => (x.1, x.2.1, BVal.ofVal x.2.2)), F.prints.map BVal.ofVal⟩ : Machine)
+                            have hD := destination_ok (E := E) cx hp hdst hsub2 hidxT hfd (⟨[], ⟨accts, keys, F.st.bal⟩, F.st.postings, tm, am, pr⟩ : Machine)
                               [] ks2 b2 hok2 taken hparts2
                             simp only
                             cases hfin : finishSend env d taken ⟨b2, F.st.postings⟩ with
@@ -915,7 +1013,7 @@ theorem stmt_ok {R : List Resource} {V : List BVal} {env : VEnv} (cx : Ctx R V e
                               rw [hfin] at hD
                               obtain ⟨hok3, ks3, hex3⟩ := hD
                               refine ⟨_, by first | (simp only [exec_append, hex1', hX.2, push_upd, ofVal_mon, hex2, hex3]; done) | (simp only [exec_append, hex1', hX.2, push_upd, ofVal_mon, hex2, hex3]; rfl), ?_⟩
-                              exact ⟨rfl, rfl, rfl, rfl, rfl, rfl, rfl, hok3⟩
+                              exact ⟨rfl, rfl, rfl, rfl, h5, h6, h7, hok3⟩
             | all ae =>
               simp only [Stmt.frag0, Bool.and_eq_true] at hf
               obtain ⟨⟨hfe, hfs⟩, hfd⟩ := hf
@@ -938,18 +1036,18 @@ theorem stmt_ok {R : List Resource} {V : List BVal} {env : VEnv} (cx : Ctx R V e
                   have hS := source_ok (E := E) cx a0 hpa hso hsubS (heA.varIdxOK hidx) hfs
                   have hidxT : VarIdxOK (setNeeded so.st so.needed aA) := hes.varIdxOK hidx
                   simp only [evalStmt, evalSend, ha0]
-                  have hs1 := hS (⟨[], ⟨accts, keys, F.st.bal⟩, F.st.postings, F.txMeta.map (fun kv => (kv.1, BVal.ofVal kv.2)), F.acctMeta.map (fun x => (x.1, x.2.1, BVal.ofVal x.2.2)), F.prints.map BVal.ofVal⟩ : Machine) [] keys F.st.bal hok
+                  have hs1 := hS (⟨[], ⟨accts, keys, F.st.bal⟩, F.st.postings, tm, am, pr⟩ : Machine) [] keys F.st.bal hok
                   cases hsrcv : evalSource env a0 sc F.st.bal with
                   | error er =>
                     rw [hsrcv] at hs1
-                    have : exec V so.code (⟨[], ⟨accts, keys, F.st.bal⟩, F.st.postings, F.txMeta.map (fun kv => (kv.1, BVal.ofVal kv.2)), F.acctMeta.map (fun x => (x.1, x.2.1, BVal.ofVal x.2.2)), F.prints.map BVal.ofVal⟩ : Machine) = .error er := hs1
+                    have : exec V so.code (⟨[], ⟨accts, keys, F.st.bal⟩, F.st.postings, tm, am, pr⟩ : Machine) = .error er := hs1
                     simp only [exec_append, this]
                   | ok r =>
                     obtain ⟨f, fb, b1⟩ := r
                     rw [hsrcv] at hs1
                     obtain ⟨hfb, hok1, hparts, ks1, hex1⟩ := hs1
-                    have hex1' : exec V so.code (⟨[], ⟨accts, keys, F.st.bal⟩, F.st.postings, F.txMeta.map (fun kv => (kv.1, BVal.ofVal kv.2)), F.acctMeta.map (fun x => (x.1, x.2.1, BVal.ofVal x.2.2)), F.prints.map BVal.ofVal⟩ : Machine) = _ := hex1
-                    have hD := destination_ok (E := E) cx hp hdst hsub2 hidxT hfd (⟨[], ⟨accts, keys, F.st.bal⟩, F.st.postings, F.txMeta.map (fun kv => (kv.1, BVal.ofVal kv.2)), F.acctMeta.map (fun x => (x.1, x.2.1, BVal.ofVal x.2.2)), F.prints.map BVal.ofVal⟩ : Machine)
+                    have hex1' : exec V so.code (⟨[], ⟨accts, keys, F.st.bal⟩, F.st.postings, tm, am, pr⟩ : Machine) = _ := hex1
+                    have hD := destination_ok (E := E) cx hp hdst hsub2 hidxT hfd (⟨[], ⟨accts, keys, F.st.bal⟩, F.st.postings, tm, am, pr⟩ : Machine)
                       [] ks1 b1 hok1 f hparts
                     simp only
                     cases hfin : finishSend env d f ⟨b1, F.st.postings⟩ with
@@ -960,7 +1058,22 @@ theorem stmt_ok {R : List Resource} {V : List BVal} {env : VEnv} (cx : Ctx R V e
                       rw [hfin] at hD
                       obtain ⟨hok3, ks3, hex3⟩ := hD
                       refine ⟨_, by first | (simp only [exec_append, hex1', hex3]; done) | (simp only [exec_append, hex1', hex3]; rfl), ?_⟩
-                      exact ⟨rfl, rfl, rfl, rfl, rfl, rfl, rfl, hok3⟩
+                      exact ⟨rfl, rfl, rfl, rfl, h5, h6, h7, hok3⟩
+
+/-- what the code of a statement of the fragment does, in `Spec`'s words -/
+theorem stmt_ok {R : List Resource} {V : List BVal} {env : VEnv} (cx : Ctx R V env) (hp : VPos V) {st st' : CState} {s : Stmt} {c : Code}
+    (hv : visitStmt st s = .ok (c, st')) (hsub : Sub st' R) (hidx : VarIdxOK st) (hf : s.frag = true)
+    {A : List Acct} (hE : EntOK V st'.needed A E) (m : Machine) (F : Full) (hrel : Rel A E m F) :
+    match evalStmt env s F with
+    | .error er => exec V c m = .error er
+    | .ok F' => ∃ m', exec V c m = .ok m' ∧ Rel A E m' F' := by
+  have h := stmt_okQ (Q := ExactQ) (fun _ => rfl) cx hp hv hsub hidx hf hE m F hrel.toQ
+  cases hev : evalStmt env s F with
+  | error er => rw [hev] at h; exact h
+  | ok F' =>
+    rw [hev] at h
+    obtain ⟨m', h1, h2⟩ := h
+    exact ⟨m', h1, h2.toRel⟩
 
 theorem EntOK.mono {V : List BVal} {A : List Acct} {st st' : CState} (h : EntOK V st'.needed A E) (he : Ext st st') :
     EntOK V st.needed A E := fun a x hin => h a x (he.mono a x hin)
